@@ -5,7 +5,28 @@ HERE = os.path.dirname(os.path.dirname(os.path.abspath(__file__)))
 
 TECH = "symbolic execution of the real functions (symx proxies) + SMT verdict per path (z3/cvc5), counterexamples replayed"
 
+TECH_E2 = "CrossHair symbolic execution (z3) of contract functions over the real API, counterexamples replayed concretely"
+
 CHECKS = {
+ "C01": dict(
+    text="The real make_readable -> check_and_fix_contrast -> strategy -> re-formatting code is executed symbolically for every spelling template x mode x large x "
+         "very_readable with the background symbolic and the numeric search replaced by 'its input or ANY valid colour'; per path z3 proves success <=> "
+         "reference WCAG ratio(colour read back, background) >= required minimum. The flag is thus right for whatever the search returns.",
+    note="search stubbed (over-approximated); srgb_to_linear as UF (C05.1); hsl/hex read-back through the format->parse lemmas of C06; quick tier truncates mode 2's "
+         "extended loop to 3 iterations and uses two spellings for mode 2; real model of doubles, guard 1e-9",
+    design="3 C01", technique=TECH, thorough=True),
+ "C02": dict(
+    text="Clause A on the same harness as C01 (already passing => success and the identical colour, all templates x settings). Clause B with the contrast ratio as UF and "
+         "the search stub under the contract 'contrast not lower', which is itself proved on the real generate_accessible_color (symbolic schedules, search routines as "
+         "contract stubs): contrast(returned) >= contrast(original) on every path, including the relaxed fallback.",
+    note="assume-guarantee chain: search routines (C04) -> generate_accessible_color (here) -> strategies (here); schedules of length <= 2 (quick) / 3 (thorough)",
+    design="3 C02", technique=TECH, thorough=True),
+ "C04": dict(
+    text="The real binary_search_lightness, gradient_descent_oklch, generate_accessible_color and the three strategies run symbolically with dE / contrast as UFs and "
+         "OKLCH conversions as fresh colours: each routine returns None/its input or a valid colour within the (largest) tolerance given; the library's schedules peak at "
+         "5.0 / 3.0 / 15.0; recursive steps chain from the previous colour; hence mode 0 stays within dE 5.0.",
+    note="bisection / descent loops truncated (3/3 quick, 4/6 thorough iterations; same loop body); numeric dE values abstracted (C11)",
+    design="3 C04", technique=TECH, thorough=True),
  "C05": dict(
     text="Every feasible path of the real luminance / ratio / level / is_readable code over six symbolic 8-bit channels (and a free real ratio) "
          "is compared by the solver with an independent WCAG 2 reference; unsat on all paths = holds for all 2^24 colours / 2^48 pairs / all ratios, "
@@ -16,7 +37,8 @@ CHECKS = {
     text="The real rgb_to_hsl -> hsl_to_rgb / parse_color_to_rgb string round trip, rgb() strings, tuples and the format dispatch are executed "
          "symbolically for all 2^24 colours (numerals carried as tokens through the real string code); z3 proves the pre-rounding value equals the "
          "channel and that the CSS Color 3 hsl algorithm reads the emitted value back as the colour; an IEEE-754 (Float64) twin proves the emitted "
-         "percentages pass the library's own range validation bit-exactly (compositional proof, every step an SMT query). Hex is a bounded clause only.",
+         "percentages pass the library's own range validation bit-exactly (compositional proof, every step an SMT query); the make_readable format mapping "
+         "(hex/rgb()/hsl()/tuple per input spelling x outcome) is decided on the API harness. Hex digits are outside the symbolic claim.",
     note="real model with 1e-9 guard for the value identity, exact binary64 for range acceptance (upper bounds, NaN, division safety); float(repr(x))==x assumed; "
          "hex output/input outside the symbolic claim",
     design="3 C06", technique=TECH + "; QF_BVFP twin for rounding-sensitive kernels", thorough=True),
@@ -27,6 +49,34 @@ CHECKS = {
     note="components range over their whole documented domain (8-bit ints, real percentages, hue in [-720,1080], alpha in [0,1]); spelling dimension is a finite "
          "template list; decimal literal -> double assumed exact; hex strings outside the symbolic claim",
     design="3 C07", technique=TECH, thorough=True),
+ "C12": dict(
+    text="The real make_readable_bulk runs symbolically on lists of symbolic entries (tuple/list/string colours, invalid entries, symbolic large/mode/very_readable) with "
+         "ColorPair.make_readable as a recording stub: one result per entry in order, each the stub's result for a pair built from that entry's own arguments, status = "
+         "reference WCAG label of the returned colour, invalid entries unchanged and never 'readable', neighbours undisturbed.",
+    note="list length <= 2 (quick) / 3 (thorough); what make_readable returns is C01's subject; save_report effects outside",
+    design="3 C12", technique=TECH, thorough=True),
+ "C13": dict(
+    text="The real ColorPair constructor runs symbolically on rgba()/hsla()/RGBA-tuple text (and translucent backgrounds) with free alpha and symbolic background: the "
+         "stored colour is within 1.5 of the exact source-over blend over that pair's own background, alpha 1/0 give colour/background, is_readable is the WCAG label of "
+         "the composite and make_readable hands exactly the composite to the fixing routine.",
+    note="three translucent spellings x background as tuple or string; hsla via stage lemma + abstraction; real model of doubles",
+    design="3 C13", technique=TECH, thorough=True),
+ "C14": dict(
+    text="CrossHair explores Color / ColorPair / make_readable_bulk on free short strings, near-miss CSS templates with free fragments and tuples/lists of length 0-5 over "
+         "int/float/str/None/bool looking for a raise or a mis-shaped valid/invalid object; 'Confirmed over all paths' for the short tuples, bounded bug-hunting for the rest.",
+    note="bounded: strings <= 5 (fragments <= 3), containers <= 5; most conditions are 'Not confirmed' (no counterexample within the time budget), recorded per condition",
+    design="3 C14", technique=TECH_E2, engine="crosshair", thorough=True),
+ "C16": dict(
+    text="Two runs of the real code are compared in one symbolic execution with the search as deterministic UFs: mode-1 success => mode 2 returns the identical colour "
+         "with success (all 10 iterations); very_readable success => ordinary success with the real generate_accessible_color and the two search routines as UFs "
+         "(schedules truncated, mode 0 fully and mode 1 for 2-3 recursive iterations).",
+    note="assumes the search routines are functions of their arguments (C15, n/a); clause 2 is bounded (truncated schedules/iterations)",
+    design="3 C16", technique=TECH, thorough=True),
+ "C19": dict(
+    text="CrossHair runs the three real report generators with one or two symbolic characters in one user-controlled slot at a time and searches for a text whose report "
+         "differs from the marker report with the marker replaced by the per-character HTML escape (quotes included).",
+    note="bounded bug-hunting: text of 1 and 2 symbolic characters per slot, one slot at a time; escaping is per character",
+    design="3 C19", technique=TECH_E2, engine="crosshair", thorough=True),
 }
 
 NA = {
@@ -58,8 +108,10 @@ def main():
              hooks=dict(guard="CM_COLORS_VERIF", enable="no source hooks: all interception is namespace injection inside the harness process",
                         baseline_off_cmd="cd /repo && /venv/bin/python -m pytest -ra -q -p no:cacheprovider --timeout=900 --continue-on-collection-errors",
                         source_commits=[], add_only=True),
-             engines=[dict(name="symx", path="vf/symx.py", serves_properties=sorted(CHECKS),
-                           kind_free_text="proxy-object symbolic execution of the real Python functions, z3 per path, external portfolio (cvc5, z3 4.8.12)")],
+             engines=[dict(name="symx", path="vf/symx.py", serves_properties=sorted(k for k in CHECKS if CHECKS[k].get("engine", "symx") == "symx"),
+                           kind_free_text="proxy-object symbolic execution of the real Python functions, z3 per path, external portfolio (cvc5, z3 4.8.12)"),
+                      dict(name="crosshair", path="vf/e2.py", serves_properties=sorted(k for k in CHECKS if CHECKS[k].get("engine") == "crosshair"),
+                           kind_free_text="CrossHair 0.0.110 contract checking over the real API (E2)")],
              checks=checks, not_applicable=na,
              notes="exit 0 = all obligations unsat within stated bounds; exit 1 = reproduced violation; exit 2 = inconclusive (never a violation)")
     json.dump(m, open(os.path.join(HERE, "MANIFEST.json"), "w"), indent=1)
